@@ -23,6 +23,8 @@ use std::collections::BTreeSet;
 pub struct SError {
     pub rule: &'static str,
     pub msg: String,
+    /// Name of the type definition the error is about ("" for errors of the schema definition itself).
+    pub at: String,
 }
 
 /// Every rule tag this module can emit, in reporting order.
@@ -33,6 +35,7 @@ pub const RULES: &[&str] = &[
     "RootSubscription",
     "RootTypesDistinct",
     "KnownType",
+    "KnownInterface",
     "ObjectHasFields",
     "InterfaceHasFields",
     "UniqueFieldNames",
@@ -68,9 +71,14 @@ pub const RULES: &[&str] = &[
 
 type Out = Vec<SError>;
 
-fn err(out: &mut Out, rule: &'static str, msg: String) {
+fn err_at(out: &mut Out, rule: &'static str, at: &str, msg: String) {
     debug_assert!(RULES.contains(&rule));
-    out.push(SError { rule, msg });
+    out.push(SError { rule, msg, at: at.to_string() });
+}
+
+/// Error of the schema definition or of a directive definition (no type to attribute it to).
+fn err(out: &mut Out, rule: &'static str, msg: String) {
+    err_at(out, rule, "", msg);
 }
 
 fn user_types(s: &Schema) -> impl Iterator<Item = &TypeT> {
@@ -95,7 +103,7 @@ fn dups<'a>(names: impl Iterator<Item = &'a str>) -> Vec<&'a str> {
 pub fn reserved_type_names(s: &Schema, out: &mut Out) {
     for t in user_types(s) {
         if t.name.starts_with("__") {
-            err(out, "ReservedTypeName", format!("type {} has a reserved name", t.name));
+            err_at(out, "ReservedTypeName", &t.name, format!("type {} has a reserved name", t.name));
         }
     }
 }
@@ -145,9 +153,9 @@ pub fn root_types_distinct(s: &Schema, out: &mut Out) {
 /// apply `IsOutputType` / `IsInputType` / "must be an Object type" … to the
 /// referenced type, which presupposes that it exists).
 pub fn known_types(s: &Schema, out: &mut Out) {
-    let need = |what: String, n: &str, out: &mut Out| {
+    let need = |at: &str, what: String, n: &str, out: &mut Out| {
         if !s.types.contains_key(n) {
-            err(out, "KnownType", format!("{what} refers to the undefined type {n}"));
+            err_at(out, "KnownType", at, format!("{what} refers to the undefined type {n}"));
         }
     };
     for t in user_types(s) {
@@ -155,30 +163,32 @@ pub fn known_types(s: &Schema, out: &mut Out) {
             Kind::Scalar | Kind::Enum { .. } => {}
             Kind::Object { interfaces, fields } | Kind::Interface { interfaces, fields } => {
                 for i in interfaces {
-                    need(format!("{} implements", t.name), i, out);
+                    if !s.types.contains_key(i) {
+                        err_at(out, "KnownInterface", &t.name, format!("{} implements the undefined type {i}", t.name));
+                    }
                 }
                 for f in fields {
-                    need(format!("field {}.{}", t.name, f.name), f.ty.base(), out);
+                    need(&t.name, format!("field {}.{}", t.name, f.name), f.ty.base(), out);
                     for a in &f.args {
-                        need(format!("argument {}.{}({}:)", t.name, f.name, a.name), a.ty.base(), out);
+                        need(&t.name, format!("argument {}.{}({}:)", t.name, f.name, a.name), a.ty.base(), out);
                     }
                 }
             }
             Kind::Union { members } => {
                 for m in members {
-                    need(format!("union {}", t.name), m, out);
+                    need(&t.name, format!("union {}", t.name), m, out);
                 }
             }
             Kind::Input { fields, .. } => {
                 for f in fields {
-                    need(format!("input field {}.{}", t.name, f.name), f.ty.base(), out);
+                    need(&t.name, format!("input field {}.{}", t.name, f.name), f.ty.base(), out);
                 }
             }
         }
     }
     for d in s.directives.values() {
         for a in &d.args {
-            need(format!("argument @{}({}:)", d.name, a.name), a.ty.base(), out);
+            need("", format!("argument @{}({}:)", d.name, a.name), a.ty.base(), out);
         }
     }
 }
@@ -199,9 +209,9 @@ pub fn has_fields(s: &Schema, out: &mut Out) {
         if let Some((is_obj, _, fields)) = composite(t) {
             if fields.is_empty() {
                 if is_obj {
-                    err(out, "ObjectHasFields", format!("object type {} defines no fields", t.name));
+                    err_at(out, "ObjectHasFields", &t.name, format!("object type {} defines no fields", t.name));
                 } else {
-                    err(out, "InterfaceHasFields", format!("interface type {} defines no fields", t.name));
+                    err_at(out, "InterfaceHasFields", &t.name, format!("interface type {} defines no fields", t.name));
                 }
             }
         }
@@ -213,7 +223,7 @@ pub fn unique_field_names(s: &Schema, out: &mut Out) {
     for t in user_types(s) {
         if let Some((_, _, fields)) = composite(t) {
             for d in dups(fields.iter().map(|f| f.name.as_str())) {
-                err(out, "UniqueFieldNames", format!("{} defines field {d} more than once", t.name));
+                err_at(out, "UniqueFieldNames", &t.name, format!("{} defines field {d} more than once", t.name));
             }
         }
     }
@@ -224,7 +234,7 @@ pub fn reserved_field_names(s: &Schema, out: &mut Out) {
     for t in user_types(s) {
         if let Some((_, _, fields)) = composite(t) {
             for f in fields.iter().filter(|f| f.name.starts_with("__")) {
-                err(out, "ReservedFieldName", format!("field {}.{} has a reserved name", t.name, f.name));
+                err_at(out, "ReservedFieldName", &t.name, format!("field {}.{} has a reserved name", t.name, f.name));
             }
         }
     }
@@ -236,7 +246,7 @@ pub fn field_output_types(s: &Schema, out: &mut Out) {
         if let Some((_, _, fields)) = composite(t) {
             for f in fields {
                 if s.types.contains_key(f.ty.base()) && !s.is_output(f.ty.base()) {
-                    err(out, "FieldOutputType", format!("field {}.{}: {} is not an output type", t.name, f.name, f.ty));
+                    err_at(out, "FieldOutputType", &t.name, format!("field {}.{}: {} is not an output type", t.name, f.name, f.ty));
                 }
             }
         }
@@ -250,7 +260,7 @@ pub fn unique_arg_names(s: &Schema, out: &mut Out) {
         if let Some((_, _, fields)) = composite(t) {
             for f in fields {
                 for d in dups(f.args.iter().map(|a| a.name.as_str())) {
-                    err(out, "UniqueArgNames", format!("field {}.{} defines argument {d} more than once", t.name, f.name));
+                    err_at(out, "UniqueArgNames", &t.name, format!("field {}.{} defines argument {d} more than once", t.name, f.name));
                 }
             }
         }
@@ -263,7 +273,7 @@ pub fn reserved_arg_names(s: &Schema, out: &mut Out) {
         if let Some((_, _, fields)) = composite(t) {
             for f in fields {
                 for a in f.args.iter().filter(|a| a.name.starts_with("__")) {
-                    err(out, "ReservedArgName", format!("argument {}.{}({}:) has a reserved name", t.name, f.name, a.name));
+                    err_at(out, "ReservedArgName", &t.name, format!("argument {}.{}({}:) has a reserved name", t.name, f.name, a.name));
                 }
             }
         }
@@ -277,7 +287,7 @@ pub fn arg_input_types(s: &Schema, out: &mut Out) {
             for f in fields {
                 for a in &f.args {
                     if s.types.contains_key(a.ty.base()) && !s.is_input(a.ty.base()) {
-                        err(out, "ArgInputType", format!("argument {}.{}({}: {}) is not of an input type", t.name, f.name, a.name, a.ty));
+                        err_at(out, "ArgInputType", &t.name, format!("argument {}.{}({}: {}) is not of an input type", t.name, f.name, a.name, a.ty));
                     }
                 }
             }
@@ -290,7 +300,7 @@ pub fn unique_interfaces(s: &Schema, out: &mut Out) {
     for t in user_types(s) {
         if let Some((_, interfaces, _)) = composite(t) {
             for d in dups(interfaces.iter().map(|i| i.as_str())) {
-                err(out, "UniqueInterfaces", format!("{} declares interface {d} more than once", t.name));
+                err_at(out, "UniqueInterfaces", &t.name, format!("{} declares interface {d} more than once", t.name));
             }
         }
     }
@@ -303,7 +313,7 @@ pub fn implements_interface_kind(s: &Schema, out: &mut Out) {
             for i in interfaces {
                 if let Some(it) = s.types.get(i) {
                     if !matches!(it.kind, Kind::Interface { .. }) {
-                        err(out, "ImplementsInterfaceKind", format!("{} implements {i}, which is not an Interface type", t.name));
+                        err_at(out, "ImplementsInterfaceKind", &t.name, format!("{} implements {i}, which is not an Interface type", t.name));
                     }
                 }
             }
@@ -316,7 +326,7 @@ pub fn interface_implements_self(s: &Schema, out: &mut Out) {
     for t in user_types(s) {
         if let Kind::Interface { interfaces, .. } = &t.kind {
             if interfaces.iter().any(|i| *i == t.name) {
-                err(out, "InterfaceImplementsSelf", format!("interface {} implements itself", t.name));
+                err_at(out, "InterfaceImplementsSelf", &t.name, format!("interface {} implements itself", t.name));
             }
         }
     }
@@ -367,23 +377,24 @@ pub fn valid_implementations(s: &Schema, out: &mut Out) {
             // 1. If implementedType declares it implements any interfaces, type must also declare it implements those interfaces.
             for need in inherited {
                 if !interfaces.iter().any(|x| x == need) {
-                    err(out, "ImplementsTransitive", format!("{} implements {iname} but not {need}, which {iname} implements", t.name));
+                    err_at(out, "ImplementsTransitive", &t.name, format!("{} implements {iname} but not {need}, which {iname} implements", t.name));
                 }
             }
             // 2. type must include a field of the same name for every field defined in implementedType.
             for ifield in ifields {
                 let Some(field) = fields.iter().find(|f| f.name == ifield.name) else {
-                    err(out, "ImplementsField", format!("{} lacks field {} of interface {iname}", t.name, ifield.name));
+                    err_at(out, "ImplementsField", &t.name, format!("{} lacks field {} of interface {iname}", t.name, ifield.name));
                     continue;
                 };
                 // 2.3 field must include an argument of the same name for every argument defined in implementedField;
                 // 2.3.1 that named argument must accept the same type (invariant).
                 for iarg in &ifield.args {
                     match field.args.iter().find(|a| a.name == iarg.name) {
-                        None => err(out, "ImplementsArg", format!("{}.{} lacks argument {} of {iname}.{}", t.name, field.name, iarg.name, ifield.name)),
-                        Some(a) if a.ty != iarg.ty => err(
+                        None => err_at(out, "ImplementsArg", &t.name, format!("{}.{} lacks argument {} of {iname}.{}", t.name, field.name, iarg.name, ifield.name)),
+                        Some(a) if a.ty != iarg.ty => err_at(
                             out,
                             "ImplementsArgType",
+                            &t.name,
                             format!("{}.{}({}: {}) differs from {iname}.{}({}: {})", t.name, field.name, a.name, a.ty, ifield.name, iarg.name, iarg.ty),
                         ),
                         Some(_) => {}
@@ -392,12 +403,12 @@ pub fn valid_implementations(s: &Schema, out: &mut Out) {
                 // 2.4 additional arguments must not be required, e.g. must not be of a non-nullable type.
                 for a in &field.args {
                     if !ifield.args.iter().any(|x| x.name == a.name) && a.ty.is_non_null() && a.default.is_none() {
-                        err(out, "ImplementsExtraArgRequired", format!("{}.{}({}: {}) is an additional required argument not defined by {iname}.{}", t.name, field.name, a.name, a.ty, ifield.name));
+                        err_at(out, "ImplementsExtraArgRequired", &t.name, format!("{}.{}({}: {}) is an additional required argument not defined by {iname}.{}", t.name, field.name, a.name, a.ty, ifield.name));
                     }
                 }
                 // 2.5 field must return a type which is equal to or a sub-type of (covariant) the implemented field's type.
                 if !is_valid_implementation_field_type(s, &field.ty, &ifield.ty) {
-                    err(out, "ImplementsFieldType", format!("{}.{}: {} is not a valid implementation of {iname}.{}: {}", t.name, field.name, field.ty, ifield.name, ifield.ty));
+                    err_at(out, "ImplementsFieldType", &t.name, format!("{}.{}: {} is not a valid implementation of {iname}.{}: {}", t.name, field.name, field.ty, ifield.name, ifield.ty));
                 }
             }
         }
@@ -411,10 +422,10 @@ pub fn union_members(s: &Schema, out: &mut Out) {
     for t in user_types(s) {
         if let Kind::Union { members } = &t.kind {
             if members.is_empty() {
-                err(out, "UnionHasMembers", format!("union {} has no member types", t.name));
+                err_at(out, "UnionHasMembers", &t.name, format!("union {} has no member types", t.name));
             }
             for d in dups(members.iter().map(|m| m.as_str())) {
-                err(out, "UniqueUnionMembers", format!("union {} lists member {d} more than once", t.name));
+                err_at(out, "UniqueUnionMembers", &t.name, format!("union {} lists member {d} more than once", t.name));
             }
         }
     }
@@ -427,7 +438,7 @@ pub fn union_member_objects(s: &Schema, out: &mut Out) {
         if let Kind::Union { members } = &t.kind {
             for m in members {
                 if s.types.contains_key(m) && !s.is_object(m) {
-                    err(out, "UnionMemberObject", format!("member {m} of union {} is not an Object type", t.name));
+                    err_at(out, "UnionMemberObject", &t.name, format!("member {m} of union {} is not an Object type", t.name));
                 }
             }
         }
@@ -441,10 +452,10 @@ pub fn enum_values(s: &Schema, out: &mut Out) {
     for t in user_types(s) {
         if let Kind::Enum { values } = &t.kind {
             if values.is_empty() {
-                err(out, "EnumHasValues", format!("enum {} defines no values", t.name));
+                err_at(out, "EnumHasValues", &t.name, format!("enum {} defines no values", t.name));
             }
             for d in dups(values.iter().map(|v| v.0.as_str())) {
-                err(out, "UniqueEnumValues", format!("enum {} defines value {d} more than once", t.name));
+                err_at(out, "UniqueEnumValues", &t.name, format!("enum {} defines value {d} more than once", t.name));
             }
         }
     }
@@ -460,7 +471,7 @@ fn inputs(s: &Schema) -> impl Iterator<Item = (&TypeT, &[Arg], bool)> {
 pub fn input_has_fields(s: &Schema, out: &mut Out) {
     for (t, fields, _) in inputs(s) {
         if fields.is_empty() {
-            err(out, "InputHasFields", format!("input object {} defines no input fields", t.name));
+            err_at(out, "InputHasFields", &t.name, format!("input object {} defines no input fields", t.name));
         }
     }
 }
@@ -469,7 +480,7 @@ pub fn input_has_fields(s: &Schema, out: &mut Out) {
 pub fn unique_input_field_names(s: &Schema, out: &mut Out) {
     for (t, fields, _) in inputs(s) {
         for d in dups(fields.iter().map(|f| f.name.as_str())) {
-            err(out, "UniqueInputFieldNames", format!("input object {} defines field {d} more than once", t.name));
+            err_at(out, "UniqueInputFieldNames", &t.name, format!("input object {} defines field {d} more than once", t.name));
         }
     }
 }
@@ -478,7 +489,7 @@ pub fn unique_input_field_names(s: &Schema, out: &mut Out) {
 pub fn reserved_input_field_names(s: &Schema, out: &mut Out) {
     for (t, fields, _) in inputs(s) {
         for f in fields.iter().filter(|f| f.name.starts_with("__")) {
-            err(out, "ReservedInputFieldName", format!("input field {}.{} has a reserved name", t.name, f.name));
+            err_at(out, "ReservedInputFieldName", &t.name, format!("input field {}.{} has a reserved name", t.name, f.name));
         }
     }
 }
@@ -488,7 +499,7 @@ pub fn input_field_input_types(s: &Schema, out: &mut Out) {
     for (t, fields, _) in inputs(s) {
         for f in fields {
             if s.types.contains_key(f.ty.base()) && !s.is_input(f.ty.base()) {
-                err(out, "InputFieldInputType", format!("input field {}.{}: {} is not an input type", t.name, f.name, f.ty));
+                err_at(out, "InputFieldInputType", &t.name, format!("input field {}.{}: {} is not an input type", t.name, f.name, f.ty));
             }
         }
     }
@@ -527,7 +538,7 @@ pub fn input_cycles(s: &Schema, out: &mut Out) {
             }
         }
         if cyclic {
-            err(out, "InputCycle", format!("input object {} references itself through a chain of non-null, non-list fields", t.name));
+            err_at(out, "InputCycle", &t.name, format!("input object {} references itself through a chain of non-null, non-list fields", t.name));
         }
     }
 }
@@ -542,10 +553,10 @@ pub fn one_of_fields(s: &Schema, out: &mut Out) {
         }
         for f in fields {
             if f.ty.is_non_null() {
-                err(out, "OneOfNullable", format!("field {}.{}: {} of a OneOf input object must be nullable", t.name, f.name, f.ty));
+                err_at(out, "OneOfNullable", &t.name, format!("field {}.{}: {} of a OneOf input object must be nullable", t.name, f.name, f.ty));
             }
             if f.default.is_some() {
-                err(out, "OneOfNoDefault", format!("field {}.{} of a OneOf input object must not have a default value", t.name, f.name));
+                err_at(out, "OneOfNoDefault", &t.name, format!("field {}.{} of a OneOf input object must not have a default value", t.name, f.name));
             }
         }
     }
@@ -619,7 +630,7 @@ pub fn duplicate_type_names(doc: &TsDoc) -> Vec<String> {
 /// Validate a type-system document: duplicate type names, then `validate_schema` on the tolerant IR.
 pub fn validate_sdl(sdl: &str) -> Result<Vec<SError>, String> {
     let doc = crate::parse::parse_ts(sdl).map_err(|e| format!("SDL parse error at {}:{}: {}", e.pos.line, e.pos.col, e.msg))?;
-    let mut out: Vec<SError> = duplicate_type_names(&doc).into_iter().map(|n| SError { rule: "UniqueTypeNames", msg: format!("type {n} is defined more than once") }).collect();
+    let mut out: Vec<SError> = duplicate_type_names(&doc).into_iter().map(|n| SError { rule: "UniqueTypeNames", msg: format!("type {n} is defined more than once"), at: n.clone() }).collect();
     out.extend(validate_schema(&Schema::from_doc_tolerant(&doc)));
     Ok(out)
 }
@@ -706,7 +717,8 @@ mod tests {
     fn s3_6_rule3_implements_unique_interfaces() {
         assert_eq!(rules(&format!("{Q} interface I {{ f: Int }} type A implements I & I {{ f: Int }}")), ["UniqueInterfaces"]);
         assert_eq!(rules(&format!("{Q} type B {{ f: Int }} type A implements B {{ f: Int }}")), ["ImplementsInterfaceKind"]);
-        assert_eq!(rules(&format!("{Q} type A implements Zzz {{ f: Int }}")), ["KnownType"]);
+        assert_eq!(rules(&format!("{Q} type A implements Zzz {{ f: Int }}")), ["KnownInterface"]);
+        assert_eq!(rules(&format!("{Q} interface I implements Zzz {{ f: Int }}")), ["KnownInterface"]);
     }
 
     // §3.6 IsValidImplementation
@@ -834,6 +846,13 @@ mod tests {
         assert_eq!(rules(&format!("{Q} directive @__d on FIELD")), ["DirectiveReservedName"]);
         assert_eq!(rules(&format!("{Q} directive @d(x: Query) on FIELD")), ["DirectiveArgs"]);
         assert_eq!(rules(&format!("{Q} directive @d(__x: Int) on FIELD")), ["DirectiveArgs"]);
+    }
+
+    #[test]
+    fn errors_name_the_type_definition_they_are_about() {
+        let e = validate_sdl("schema { query: Query subscription: S } type Query { q: In } input In { a: In! } union U").unwrap();
+        let at: Vec<(&str, &str)> = e.iter().map(|x| (x.rule, x.at.as_str())).collect();
+        assert_eq!(at, [("RootSubscription", ""), ("FieldOutputType", "Query"), ("UnionHasMembers", "U"), ("InputCycle", "In")]);
     }
 
     #[test]
